@@ -88,6 +88,35 @@ def group_under_net(draw):
 
 
 @st.composite
+def group_under_wild(draw):
+    """top = ONE non-contiguous wildcard (every other subnet, odd hosts ...); bottom = a group of 3..5 ascending
+    members, each inside the top with high probability - the first and the last included - so that an outsider
+    in the middle decides."""
+    low = draw(st.integers(0, 8))
+    k = draw(st.integers(1, 3))
+    pos = draw(st.lists(st.integers(low + 1, low + 6), min_size=k, max_size=k, unique=True))
+    w = (1 << low) - 1
+    for p_ in pos:
+        w |= 1 << p_
+    base = draw(G.base_st()) & ~w & ~((1 << (low + 7)) - 1) & R.ALL1
+    top = {"k": "wild", "b": base, "w": w}
+    span = 1 << 7
+    wbits = (w >> low) & (span - 1)
+    inside_idx = [i for i in range(span) if i & ~wbits == 0]
+    outside_idx = [i for i in range(span) if i & ~wbits]
+    n = draw(st.integers(2, 4))
+    picks = sorted(draw(st.lists(st.sampled_from(inside_idx), min_size=min(n, len(inside_idx)), max_size=min(n, len(inside_idx)),
+                                 unique=True)))
+    where = draw(st.sampled_from(["none", "none", "between", "between", "below", "above"]))
+    cands = {"between": [i for i in outside_idx if picks[0] < i < picks[-1]], "below": [i for i in outside_idx if i < picks[0]],
+             "above": [i for i in outside_idx if i > picks[-1]]}.get(where) or []
+    if cands:
+        picks = sorted(picks + [draw(st.sampled_from(cands))])
+    mem = [[(base | (i << low)) & R.ALL1, (1 << low) - 1] for i in picks]
+    return top, {"k": "group", "b": 0, "w": 0, "n": "G1", "m": mem}
+
+
+@st.composite
 def adjacent_run_group(draw):
     """top = a group listing 2..4 CONSECUTIVE equal-size networks (an odd start index gives neighbours that are
     not siblings); bottom = the block just below / above the run, a block inside it, or their common supernet."""
@@ -161,6 +190,9 @@ def typo_mask_pair(draw):
 @st.composite
 def addr_pair_st(draw, tier):
     mode = draw(st.sampled_from(range(10)))
+    if mode == 5 and draw(st.booleans()):
+        a, b = draw(group_under_wild())
+        return {"a": a, "b": b, "pa": draw(st.sampled_from(["ios", "nxos"])), "pb": draw(st.sampled_from(["ios", "nxos"]))}
     if mode < 2:
         a, b = draw(group_under_net())
         return {"a": a, "b": b, "pa": draw(st.sampled_from(["ios", "nxos"])), "pb": draw(st.sampled_from(["ios", "nxos"]))}
